@@ -886,8 +886,8 @@ def stream_entry(ctx, drv, cov, viols, root, r):
     stats = dict(entries=0, restarts_ok=0)
     seen = set()
     path = os.path.join(root, "cache.json")
+    cases = []
     for i in range(n):
-        reset_dir(root, {})
         emap = gen_entity_map(r, True, small=(i % 3 != 0))
         while not wf_map(emap):
             emap = gen_entity_map(r, True, small=(i % 3 != 0))
@@ -901,12 +901,16 @@ def stream_entry(ctx, drv, cov, viols, root, r):
             entry["broadcast_key"] = r.choice([None, hexs(r, 32), hexs(r, 32).upper()])     # BLE keys are 256 bit
         if i % 4 != 3:
             entry["state_num"] = r.choice([None, 1, 2, 65535, r.randrange(1, 65536)])
-        with open(path, "w", encoding="utf-8") as f:
-            json.dump({"pairings": {hkid: entry}}, f, ensure_ascii=False)
         pd = gen_pairing(r, "BLE")
         pd["AccessoryPairingID"] = hkid
         jn = normalise_types(emap)
-        ans = parse_answer(drv.batch(["entry " + to_tokens(table_for(jn)) + " " + to_tokens(dict(entry, accessories=jn))])[0])
+        cases.append((i, emap, hkid, entry, pd, "entry " + to_tokens(table_for(jn)) + " " + to_tokens(dict(entry, accessories=jn))))
+    answers = drv.batch([c[5] for c in cases])
+    for (i, emap, hkid, entry, pd, _), raw in zip(cases, answers):
+        reset_dir(root, {})
+        ans = parse_answer(raw)
+        with open(path, "w", encoding="utf-8") as f:
+            json.dump({"pairings": {hkid: entry}}, f, ensure_ascii=False)
 
         def state_of(pairing):
             st = pairing.accessories_state
@@ -1215,11 +1219,17 @@ async def run_async(ctx):
     viols = []
     root = tempfile.mkdtemp(prefix="verif_c20_", dir=SANDBOX_PARENT)
     try:
-        stream_save(ctx, drv, cov, viols, root, rng(seed, "c20save"))
-        stream_cache(ctx, drv, cov, viols, root, rng(seed, "c20cache"))
-        stream_pairs(ctx, drv, cov, viols, root, rng(seed, "c20pairs"))
-        stream_entry(ctx, drv, cov, viols, root, rng(seed, "c20entry"))
-        stream_emap(ctx, drv, cov, viols, rng(seed, "c20emap"))
+        import time
+        timings = {}
+        for name, fn in (("save", lambda: stream_save(ctx, drv, cov, viols, root, rng(seed, "c20save"))),
+                         ("cache", lambda: stream_cache(ctx, drv, cov, viols, root, rng(seed, "c20cache"))),
+                         ("pairs", lambda: stream_pairs(ctx, drv, cov, viols, root, rng(seed, "c20pairs"))),
+                         ("entry", lambda: stream_entry(ctx, drv, cov, viols, root, rng(seed, "c20entry"))),
+                         ("emap", lambda: stream_emap(ctx, drv, cov, viols, rng(seed, "c20emap")))):
+            t0 = time.time()
+            fn()
+            timings[name] = round(time.time() - t0, 1)
+        cov.extra["stream_seconds"] = timings
     finally:
         shutil.rmtree(root, ignore_errors=True)
         for t in asyncio.all_tasks():
